@@ -14,6 +14,22 @@ BASE_OFF = ("cd /repo && /venv/bin/python -m pytest -ra -q -p no:cacheprovider -
 
 # id -> (level category, technique, level text, level note, design ref)
 CHECKS = {
+    'C02': ('exploration',
+            'per-line rule evaluation on every produced solution; rules compiled from the official wording in the bundled templates (or cited transcriptions)',
+            'For each produced solution (and a second pass in which every line of every participating form is demanded, so each rule\'s operands exist) every line that has an official rule is '
+            'recomputed from the other lines of the same solution: about 100 rules per year are parsed from the accessibility text of the template field the line is written into (add / subtract with floor / '
+            'multiply by the printed rate / smaller of / carry in and out), about 90 per year are cited transcriptions (capital-gain worksheet, Form 6251 worksheet, Credit Limit Worksheet A, '
+            '"see instructions" lines of Form 1040, NC D-400 and its schedules). Evidence lists rules never exercised non-trivially as not observed.',
+            'Transcribed rules are weaker evidence (labelled); carries are asserted only for lines the return uses.',
+            'DESIGN.md section 4, C02'),
+    'C08': ('exploration',
+            'directed scenarios observing each published amount through an echo line, a Form.threshold lookup, or an outcome flip just below / at the official amount',
+            'Exhaustive over about 470 (year, amount, status) triples of hv/statutory.py (standard deductions, capital-gain breakpoints, AMT exemption / phase-out / 28 % point, child-credit amounts '
+            'and phase-outs, Additional Medicare thresholds, HSA limits, SALT cap, QBI / EIC / saver\'s-credit limits, Form 1116 ceiling, Schedule B threshold, 2021 recovery-rebate amounts, NC rate, '
+            'NC standard and child deductions at every AGI band edge): each is read from a line that displays it, from the threshold table, or decided by two solves placed one dollar apart around the '
+            'official amount. Unobserved triples (NC for qualifying surviving spouse) are listed.',
+            'Trusts hv/statutory.py; the code may compare a conservative quantity for QBI (asserted only where the law fixes the outcome).',
+            'DESIGN.md section 4, C08'),
     'C09': ('exploration',
             'gate-read checker over traces (READ_INPUT of a curated gate with the affirmative answer => verdict not solved) with directed flips',
             'spec/gates.py curates ~70 gate inputs per year from the input descriptions. On every traced solve, a consultation of a gate with the affirmative answer '
